@@ -993,6 +993,29 @@ def evaluate(case, native):
         if left:
             return True, f'core point(s) {left} are in no cluster (clusters {clusters}, neighbourhoods {nb}, min_points {mp})'
         return False, 'clusters satisfy the DBSCAN contract'
+    if kind == 'insertion_step':
+        nt, a, legs = case['tasks'], case['actor'], case['legs']
+        jn = ['J'] if nt == 1 else [f'J{i}' for i in range(nt)]
+        exp = [None, 'X', None] if a == 0 else [None, None]
+        for t, leg in enumerate(legs):
+            exp.insert(leg + 1, jn[t])
+        exp_routes = [exp] if a == 0 else [[None, 'X', None], exp]
+        ap, fin = native['after_apply'], native['after_finalize']
+        got_routes = [r['activities'] for r in ap['routes']]
+        what = f'apply_insertion_success(actor v{a}, legs {legs}, J also unassigned: {case["also_unassigned"]})'
+        if got_routes != exp_routes:
+            return True, f'{what}: tours {got_routes}, expected {exp_routes}'
+        if [r['jobs'] for r in ap['routes']] != ([['J', 'X']] if a == 0 else [['X'], ['J']]):
+            return True, f'{what}: job sets of the tours {[r["jobs"] for r in ap["routes"]]}'
+        if ap['required'] != ['Y'] or ap['unassigned'] != ['Z']:
+            return True, f'{what}: required {ap["required"]} (expected [Y]), unassigned {ap["unassigned"]} (expected [Z]) - the inserted job is accounted for more than once'
+        if ap['available'] != (['v1'] if a == 0 else []):
+            return True, f'{what}: the registry offers {ap["available"]}'
+        if fin['required'] != [] or fin['unassigned'] != ['Y', 'Z']:
+            return True, f'after finalisation: required {fin["required"]}, unassigned {fin["unassigned"]}; expected [] and [Y, Z]'
+        if native['solution_unassigned'] != ['Y', 'Z'] or native['solution_routes'] != exp_routes:
+            return True, f'Solution made from the context: unassigned {native["solution_unassigned"]} (expected [Y, Z]), tours {native["solution_routes"]} (expected {exp_routes})'
+        return False, 'every job is accounted for exactly once'
     if kind == 'statistic_sum':
         for k_ in ('cost', 'distance', 'duration', 'driving', 'serving', 'waiting', 'break_time', 'commuting', 'parking'):
             want = case['a'][k_] + case['b'][k_]
